@@ -43,6 +43,20 @@ CAT_H = [coll("c1", 101, ["sa_101v0"], ["ta_901v0"], 901),
 CAT_X_IDC = [coll("c1", 101, ["sa_101v0", "sb_101v1"], ["ta_901v0", "tb_901v1"], 102),
              coll("c2", 102, ["sa_102v0"], ["tb_902v0"], 103),
              coll("c3", 103, ["sb_103v0"], ["ta_903v0"], 101)]
+# CAT_X with physical channel names that coincide PARTIALLY and crosswise between the clusters (sa = dml_0, sb = dml_1,
+# ta = dml_1, tb = dml_2): the downstream partner of source channel dml_1 is dml_2, while downstream dml_1 serves source
+# dml_0 - whoever pairs or looks up channels by comparing names across the clusters goes wrong; plan steps: rename_shift()
+CAT_X_SHIFT = [coll("c1", 101, ["dml_0_101v0", "dml_1_101v1"], ["dml_1_901v0", "dml_2_901v1"], 901),
+               coll("c2", 102, ["dml_0_102v0"], ["dml_2_902v0"], 902),
+               coll("c3", 103, ["dml_1_103v0"], ["dml_1_903v0"], 903)]
+
+
+def rename_shift(steps):
+    import json
+    t = json.dumps(steps).replace("sa_", "dml_0_").replace("sb_", "dml_1_").replace('"sa"', '"dml_0"').replace('"sb"', '"dml_1"')
+    return json.loads(t)
+
+
 # PipeRoute_MC CollsZ: crossed placement c1 sa->tb, c2 sb->ta, c3 sa->ta (forwarded)
 CAT_Z = [coll("c1", 101, ["sa_101v0"], ["tb_901v0"], 901),
          coll("c2", 102, ["sb_102v0"], ["ta_902v0"], 902),
@@ -87,6 +101,8 @@ def route_variants(plans, tier):
         if src in ("xs", "x", "xd") and (tier == "thorough" or src == "xd" or i % 3 == 0):
             q = dict(p, plan=str(p["plan"]) + "-idc", params=dict(p["params"], catalog=CAT_X_IDC))
             out.append(q)
+        if src in ("xs", "x", "xd") and (tier == "thorough" or i % 4 == 1):
+            out.append(dict(p, plan=str(p["plan"]) + "-shift", params=dict(p["params"], catalog=CAT_X_SHIFT), steps=rename_shift(p["steps"])))
         if src == "z":
             q = dict(p, plan=str(p["plan"]) + "-same", params=dict(p["params"], catalog=CAT_Z_SAME), steps=rename_same(p["steps"]))
             out.append(q)
